@@ -36,8 +36,9 @@ CLAIMS["C02"] = {
             "them (C02_status_trailers_exact); SendHeader's frame is what Header() returns (C02_headers_exact); metadata crosses the wire unchanged iff encodable, and is "
             "unencodable iff some string is not valid UTF-8 (C02_metadata_exact, C02_metadata_unencodable_iff). Tied to the code by the metadata world (real grpc-go on "
             "bufconn: all 17 codes, details, multi-valued / binary / absent metadata, call options, per-RPC credentials), by " + _W1 + " " + _CLI + " and by the race "
-            "stress for the publication order of trailers (D4). Open finding D8 (non-UTF-8 '-bin' values or status messages kill the tunnel) is reported as KNOWN-FINDING.",
-    "design_ref": "DESIGN.md A2 (C02), A4 (D4, D5, D8)",
+            "stress for the publication order of trailers (D4). Open findings D8 (non-UTF-8 '-bin' values or status messages kill the tunnel) and D12 (a request larger than the window "
+            "to a handler that rejects without reading it: Invoke reports a bare 'context canceled') are reported as KNOWN-FINDING.",
+    "design_ref": "DESIGN.md A2 (C02), A4 (D4, D5, D8, D12)",
     "note": "Trusted: Lean kernel; Metadata.lean's UTF-8 predicate equals protobuf-go's (compared on every run by TestPureUTF8); grpc-go. Status details are opaque to "
             "the model (carried by the correspondence only). PARTIAL where the property demands delivery of non-UTF-8 values: the code does not do it (D8, recorded, not repaired: wire-format change).",
     "technique": "Lean 4 theorems over endpoint + metadata models; differential worlds incl. real grpc-go; race stress",
